@@ -2,6 +2,7 @@
 C10 - property theorems: reset restores the initial state; clones are values.
 -/
 import B3.Model.Rs
+import B3.Gen.Listings
 namespace B3.Props.C10
 open B3
 
@@ -21,5 +22,16 @@ theorem reset_keeps_mode (h : Rs.Hasher) : h.reset.key = h.key ∧ h.reset.cs.fl
 /-- `count()` is 0 after reset -/
 theorem reset_count (h : Rs.Hasher) : h.reset.count? = some 0 := by
   simp [Rs.Hasher.reset, Rs.Hasher.count?, Rs.ChunkState.new, Rs.ChunkState.count]
+
+/-- "clones are values": every state type (`Hasher`, `ChunkState`, `Output`, `OutputReader`, `Hash`) gets `Clone` from
+`#[derive(Clone)]` - a field-by-field copy, for `clone` and for the provided `clone_from` alike - and `src/lib.rs` contains no
+hand-written `impl Clone`. That is why the model has no separate clone operation: a clone is the same value (`H clone`,
+`H clonefrom` of the drivers copy the state). The lists are regenerated from the source on every run (G4). -/
+theorem clone_is_derived :
+    Gen.Listings.handWrittenClone = [] ∧
+    Gen.Listings.derives_Hasher = ["Clone"] ∧ Gen.Listings.derives_ChunkState = ["Clone"] ∧
+    Gen.Listings.derives_Output = ["Clone"] ∧ Gen.Listings.derives_OutputReader = ["Clone"] ∧
+    Gen.Listings.derives_Hash = ["Clone", "Copy", "Hash", "Eq"] :=
+  ⟨rfl, rfl, rfl, rfl, rfl, rfl⟩
 
 end B3.Props.C10
